@@ -188,6 +188,13 @@ func (eng *Engine) verifyFunc(fn *ssa.Function, fc *FuncContract, props []string
 				e.note("CONTRACT-ERROR at_return clause applies at no return: %s:%d", cl.File, cl.Line)
 			}
 		}
+		for _, kind := range []string{"before_send", "assume_recv"} {
+			for i, cl := range fc.Lists[kind] {
+				if e.chanHits[fmt.Sprintf("%s#%d", kind, i)] == 0 {
+					e.note("CONTRACT-ERROR %s clause applies to no communication: %s:%d", kind, cl.File, cl.Line)
+				}
+			}
+		}
 	}
 	exits = e.applyRecover(fn, fc, exits)
 	exits = e.mergeExits(exits)
